@@ -2,6 +2,7 @@
     other objects (hpack.hpack.Decoder / Encoder).  TRUSTED like Prelude/Py.v as a rendering of
     CPython behaviour; nothing here mentions hpack. *)
 From Coq Require Import ZArith List Bool.
+From Coq Require Import Init.Byte.
 From HV Require Import Prelude.Py.
 Import ListNotations.
 Open Scope Z_scope.
@@ -22,3 +23,18 @@ Definition nbind {S T A B} (m : outcome A * T) (put : T -> S) (f : A -> S -> out
   | (Ok a, t) => f a (put t)
   | (Err e, t) => (Err e, put t)
   end.
+
+(** [sorted(xs, key=f)] for a key [f] whose values are False / True: False < True and CPython's sort
+    is stable, so the elements with key False come first, each group in its original order. *)
+Definition stable_sort_by {A} (key : A -> bool) (xs : list A) : list A :=
+  filter (fun x => negb (key x)) xs ++ filter key xs.
+
+(** [s.startswith(p)] for bytes objects *)
+Fixpoint bytes_startswith (s p : bytes) : bool :=
+  match p with
+  | [] => true
+  | b :: p' => match s with [] => false | a :: s' => Byte.eqb a b && bytes_startswith s' p' end
+  end.
+
+(** truthiness of a value that is True, False or None *)
+Definition flag_truthy (f : option bool) : bool := match f with Some true => true | _ => false end.
